@@ -205,6 +205,23 @@ CLAIMS = {
         note="trusts clang AST/CFG; TypedArgBase property getters report the configured properties",
         also=("engine A (cfg.py)",),
         technique="static analysis: exhaustive truth table of the predicate + CFG path counting"),
+    "C10": dict(
+        level="proof", engine="engine C (lin.py, bounds.py)",
+        text="Linear-inequality abstract interpretation (exact Fourier-Motzkin entailment, exact modular unsigned "
+             "arithmetic by state splitting, no solver) of every public non-iterator member of FixedString<L> and "
+             "of the free operators ==/!=, private helpers inlined, for the capacity grid 10 (quick) and "
+             "1, 2, 10, 255, 256, 65535, 65536 (thorough), with arguments unconstrained over the whole size_t range "
+             "(npos, values far beyond L), source strings of any length and other fixed strings of smaller, equal and "
+             "larger capacity: every memcpy/memmove/memset/memcmp/vsnprintf/subscript/std::string( ptr, n) is proved "
+             "inside mString[0..L], the source extents and the local scratch buffer; the class invariant "
+             "mLength <= L (incl. narrowing into the length type) with a NUL known at mString[ mLength] is assumed at "
+             "entry and proved at every exit, which makes it hold after every sequence of operations. Not decided: "
+             "'length equals strlen' beyond the terminator at the length, iterator-taking overloads, operator[] outside "
+             "its documented precondition.",
+        note="trusted base: clang front end, extractor, cv/lin.py + cv/bounds.py, models of mem*/vsnprintf/std::string; "
+             "const char* arguments are C strings (and hold count characters where a count is passed); operator[] "
+             "under its documented precondition",
+        technique="static analysis: relational (linear inequality) abstract interpretation with inductive class invariant"),
     "C19": dict(
         level="proof", engine="engine C (lin.py, bounds.py)",
         text="Linear-inequality abstract interpretation (own exact Fourier-Motzkin entailment, no solver) of every "
